@@ -58,9 +58,28 @@ Definition orders_agree : bool :=
   && is "EnterMixin" Neither
   && attr_last kDoc && has_own kDoc
   (* the "..." body of an application: an endpoint without any context *)
-  && whatever_endpoint_records_nothing && negb (has_own kHolder).
+  && whatever_endpoint_records_nothing && negb (has_own kHolder)
+  (* round 3, second pass: query and typed path parameters: own context only; the collector: own context, no attributes,
+     nothing on exit; its four statement forms: own context, the attributes when the statement is left
+     (ExitCollector_stmts); a subscription: own context, then the attributes (then its context once more, see
+     subscribe_reown), nothing on exit *)
+  && is "EnterQuery_var" OwnOnly && has_own kQuery
+  && is "EnterHttp_path_var_with_type" OwnOnly && has_own kPathVar
+  && is "EnterCollector" OwnOnly && is "ExitCollector" Neither && has_own kCollector && is_scope kCollector && negb (fix_end kCollector)
+  && is "EnterCollector_call_stmt" OwnOnly && is "EnterCollector_http_stmt" OwnOnly
+  && is "EnterCollector_pubsub_call" OwnOnly && is "EnterCollector_action_stmt" OwnOnly
+  && is "ExitCollector_stmts" AttrsOnly && attr_last kCollStmt && has_own kCollStmt && is_stmt kCollStmt
+  && is "EnterSubscribe" AttrsAfterOwn && is "ExitSubscribe" Neither && attr_after kSubscribe && has_own kSubscribe
+  && is_scope kSubscribe && negb (fix_end kSubscribe) && has_own kSubCall && negb (is_stmt kSubCall).
 
 Example orders_ok : orders_agree = true.
+Proof. reflexivity. Qed.
+
+(* EnterSubscribe is the only handler that computes its rule's context again behind the attributes (for the call statement
+   it appends to the publisher's event): lastEnd is the END OF THE RULE again when the body starts - the harness hands the
+   model that further context as node kSubCall at the head of the subscription's body (walked behind the attributes, no
+   statement of the scope) *)
+Example subscribe_reown : own_again_after_attrs = ["EnterSubscribe"].
 Proof. reflexivity. Qed.
 
 (* exactly these functions overwrite an End with lastEnd - Model.fix_end (app, type, simple endpoint) and
@@ -69,16 +88,18 @@ Example end_fixups_ok : end_fixups = ["ExitApp_decl"; "ExitSimple_endpoint"; "Ex
 Proof. reflexivity. Qed.
 
 Example fix_end_kinds : map fix_end [kApp; kType; kEndpoint; kField; kEvent; kMethod; kText; kPlain; kBlock; kOneOf; kAnno; kNvp; kMod; kItem;
-                                     kImport; kEnum; kAlias; kUnion; kMember; kDoc; kParam]
+                                     kImport; kEnum; kAlias; kUnion; kMember; kDoc; kParam;
+                                     kQuery; kPathVar; kCollector; kCollStmt; kSubscribe; kSubCall]
                         = [true; true; true; false; false; false; false; false; false; false; false; false; false; false;
-                           false; false; false; false; false; false; false].
+                           false; false; false; false; false; false; false;
+                           false; false; false; false; false; false].
 Proof. reflexivity. Qed.
 
 (* every handler of an element that can be declared again appends to the element's list (decl_count):
    app, type/table, field, simple endpoint, REST method. (EnterEvent does NOT: known finding, see notes/C08.md) *)
 Example appenders_ok :
   forallb (fun f => existsb (String.eqb f) appenders)
-          ["EnterName_with_attribs"; "EnterTable"; "EnterField"; "EnterSimple_endpoint"; "EnterMethod_def"] = true.
+          ["EnterName_with_attribs"; "EnterTable"; "EnterField"; "EnterSimple_endpoint"; "EnterMethod_def"; "EnterCollector"] = true.
 Proof. reflexivity. Qed.
 
 (* ---------- round 3: the position helper across the files of one compilation ---------- *)
@@ -113,6 +134,8 @@ Proof. split; reflexivity. Qed.
 (* end_exact_kind: the kinds whose End nothing overwrites *)
 Example end_exact_kinds :
   filter end_exact_kind [kApp; kType; kField; kEndpoint; kEvent; kRestPath; kMethod; kText; kPlain; kBlock; kOneOf; kCase; kAnno; kNvp;
-                         kMod; kItem; kImport; kEnum; kAlias; kUnion; kMember; kDoc; kParam; kHolder; kQuery]
-  = [kField; kEvent; kMethod; kAnno; kNvp; kMod; kItem; kImport; kEnum; kAlias; kUnion; kMember; kParam; kQuery].
+                         kMod; kItem; kImport; kEnum; kAlias; kUnion; kMember; kDoc; kParam; kHolder; kQuery;
+                         kPathVar; kCollector; kCollStmt; kSubscribe; kSubCall]
+  = [kField; kEvent; kMethod; kAnno; kNvp; kMod; kItem; kImport; kEnum; kAlias; kUnion; kMember; kParam; kQuery;
+     kPathVar; kCollector; kSubscribe; kSubCall].
 Proof. reflexivity. Qed.
